@@ -418,7 +418,6 @@ pub mod glue {
         }
         match r {
             None => {
-                witness!(true, "first_header_undecodable");
                 assert!(w.fault.is_some());
             }
             Some(p) => {
